@@ -166,4 +166,11 @@ ExportOf(p, x) ==
     ELSE LET b == BestOf(S) IN IF MayAdvertise(b, p) THEN ExpApply(expPol, x, Exp(b, p)) ELSE NoRoute
 
 ExportView(p) == [x \in Prefixes |-> ExportOf(p, x)]
+
+(* ADD-PATH: every eligible path (survives loop prevention and export policy) may be sent, up to
+   send-max of them, each under its own path identifier.  WHICH ones fill the quota when more are
+   eligible is not determined by the property: the oracle is a predicate (see SpeakerTrace). *)
+SendMax(p) == PInfo[p].sendmax
+EligibleSet(p, x) ==
+  {ExpApply(expPol, x, Exp(r, p)) : r \in {q \in LocRibExpected(x) : MayAdvertise(q, p)}} \ {NoRoute}
 =============================================================================
